@@ -303,6 +303,10 @@ class Interp:
                 return len(recv)
             if m == "append":
                 return recv + [args[0]]
+            if m == "map":
+                return [self.call_closure(args[0], [x]) for x in recv]
+            if m == "filter":
+                return [x for x in recv if self.call_closure(args[0], [x])]
             if m == "get":
                 i = args[0]
                 return ("Some", recv[i]) if 0 <= i < len(recv) else ("None",)
@@ -317,11 +321,14 @@ class Interp:
             raise ValueError(m)
         if k == "if":
             c = self.expr(e["cond"], scopes)
+            if e["els"] is None:
+                # `if` without `else` evaluates to Unit whatever the branch produced
+                if c:
+                    self.block(e["then"], scopes)
+                return UNITV
             if c:
                 return self.block(e["then"], scopes)
-            if e["els"] is not None:
-                return self.block(e["els"], scopes)
-            return UNITV
+            return self.block(e["els"], scopes)
         if k == "match":
             v = self.expr(e["scrut"], scopes)
             tag = v[1] if v[0] == "V" else v[0]
